@@ -1,5 +1,6 @@
 (* C15 correspondence harness *)
 From Miller Require Import Base.Bytes C15.Model.
+From Miller Require C01.ModelJson.
 Open Scope Z_scope.
 
 Definition BAR : bytes := B "|".
@@ -24,6 +25,7 @@ Definition chk (c : Z * Z * Z * bytes * bytes * bytes * bytes) : bool :=
   | 15 => let l := splitax s1 s2 in (Z.of_nat (List.length l) =? a) && beqb (joinv l BAR) o
   | 17 => beqb (hex_encode s1) o
   | 18 => match hex_decode s1 with Some r => (a =? 0) && beqb r o | None => a =? 1 end
+  | 20 => beqb (C01.ModelJson.json_string s1) o          (* json_stringify of a string value *)
   | 19 => Bool.eqb (valid_utf8 s1) (a =? 1)
   | _ => false
   end.
